@@ -228,6 +228,58 @@ def dedup_gate(processed: bool, maybe: bool, auth: bool, trust: bool, enabled: b
             return True
 
 
+def hydrate_window(n: int, fail_at: int, rotated: bool) -> bool:
+    """
+    post: _
+    """
+    # What another thread of the same processor can observe while a hydration is in progress, and
+    # what is left behind when the id source fails part-way: the filter may claim authority only
+    # when every durable id has been loaded (otherwise a negative would skip the durable lookup
+    # for an id that was processed).  The observer is the id iterator itself.
+    import hashlib
+
+    with hx.Path("hydrate_window") as P:
+        k = hx.pick(n, 4)
+        fa = hx.pick(fail_at, 5) - 1  # -1: no failure; else the source raises before yielding id number fa
+        rot = hx.decide(rotated)
+        with hx.native():
+            saved = (dedup_mod.hashlib, dedup_mod.int)
+            dedup_mod.hashlib, dedup_mod.int = hashlib, builtins.int
+            try:
+                ids = [str(100 + i) for i in range(k)]
+                f = BloomDeduplicator(expected_items=50, false_positive_rate=0.001)
+                if rot:
+                    f.hydrate(["1", "2"])
+                    f.reset()  # a rotation: authority revoked, the filter is empty again
+                seen_auth: list[tuple[int, bool, bool]] = []
+
+                def source():
+                    for i, x in enumerate(ids):
+                        loaded = all(f.maybe_seen(y) for y in ids)
+                        seen_auth.append((i, f.authoritative, loaded))
+                        if i == fa:
+                            raise RuntimeError("id source failed")
+                        yield x
+
+                failed = False
+                try:
+                    f.hydrate(source())
+                except RuntimeError:
+                    failed = True
+                P.reached((k, fa, rot, failed))
+                info = {"ids": k, "source_fails_before_id": fa if fa >= 0 else None, "after_rotation": rot, "observations": seen_auth, "failed": failed}
+                for i, auth, loaded in seen_auth:
+                    if auth and not loaded:
+                        return P.fail("C09/hydrate/authoritative_while_ids_are_still_loading", info)
+                if failed and f.authoritative and not all(f.maybe_seen(y) for y in ids):
+                    return P.fail("C09/hydrate/authoritative_after_failed_hydration", info)
+                if not failed and not f.authoritative:
+                    return P.fail("C09/hydrate/complete_hydration_not_authoritative", info)
+                return True
+            finally:
+                dedup_mod.hashlib, dedup_mod.int = saved
+
+
 def authority_invariant(n: int) -> bool:
     """
     pre: 1 <= n <= 3
@@ -284,6 +336,7 @@ PLAN = [
     ("bloom_fn_15_wide", "thorough", 3000),
     ("dedup_gate", "quick", 120),
     ("authority_invariant", "quick", 60),
+    ("hydrate_window", "quick", 60),
     ("bloom_fn_44", "thorough", 1500),
 ]
 
@@ -291,6 +344,7 @@ META = {
     "functions": ["src/stabilize/queue/dedup.py:BloomDeduplicator._get_hash_positions/_set_bit/_get_bit/mark_seen/maybe_seen/hydrate/reset/_optimal_size/_optimal_hashes",
                   "src/stabilize/queue/processor/mixins.py:QueueProcessorMixin._handle_message"],
     "bounds": ["filter of 15 bits / 11 hash functions (expected_items=1) and 44 bits (expected_items=3, thorough); the id under test has symbolic digests (h1, h2) in [0, 3*size) (quick; unbounded non-negative in the thorough tier, explored-not-exhausted), other ids fixed digest pairs, insertion before/after/both",
+               "hydration window: 0-3 durable ids, the id source failing before id 0..3 or not at all, fresh filter or just after a rotation; authority observed before every id is loaded",
                "gate: all 64 combinations of {processed row, filter answer, authoritative, trust_negative, dedup enabled, message has id}"],
     "stubs": ["hash2: hashlib.md5/sha1(...).hexdigest() + int(.,16) inside stabilize.queue.dedup replaced by an arbitrary function of the item (symbolic pair)",
               "store and filter replaced by answer stubs for the gate lemma"],
